@@ -1340,7 +1340,8 @@ class StmtGen:
                 lo, hi = S.limits(self.dm, nt)
                 span = hi - lo + 1
                 vals = rng.sample([v for v in (0, 1, 44, 100, 127, -1, -128, 200, 255, 1000, 65535, -32768) if lo <= v <= hi], 2)
-                ctl = ('cast', nt, ('cond', ('var', rng.choice(avail)), lit(vals[0]), lit(vals[1])))
+                fl = lambda v: ('lit', 'int' if S.fits(self.dm, 'int', v) else 'uint', v)    # noqa: E731
+                ctl = ('cast', nt, ('cond', ('var', rng.choice(avail)), fl(vals[0]), fl(vals[1])))
                 pt = S.promote(self.dm, nt)
                 cand = [vals[0] + span, vals[1] - span, vals[0], vals[1] + span, 300, -1, 65536 + vals[1], vals[0] - span]
                 rng.shuffle(cand)
@@ -1437,16 +1438,48 @@ def probe_for_decl_under_label(ctx):
                                         'tools/irsem_py.run_main(m, "f", [2], 300, (8, 65536, 16777216))'})
 
 
+FIXED_STMT_CASES = [   # (march, te, nparams, rt, body, argument vectors) — always part of the statements_model stage
+    # narrow controlling expression, labels converted to the promoted type (unsigned int on msp430: case -1 = 65535)
+    (m, ['ushort'], 1, 'uint',
+     ('seq', ('switch', ('cast', 'ushort', ('cond', ('var', 0), ('lit', 'int', 1000), ('lit', 'uint', 65535))),
+              [(('case', 1000), ('if1', ('lit', 'ullong', 2), ('return', ('lit', 'int', 100)))), (None, ('break',)),
+               (('case', -1), ('expr', ('cast', 'short', ('lit', 'int', 31)))),
+               (('default',), ('if1', ('var', 0), ('return', ('un', '!', ('un', '-', ('var', 0)))))),
+               (('case', 300), ('if1', ('var', 0), ('break',))), (None, ('break',))]),
+      ('return', ('bin', '|', ('var', 0), ('lit', 'int', 1)))), [(0,), (1,), (65535,)])
+    for m in ('msp430', 'arm', 'x86_64')]
+
+
+def probe_decimal_constant(ctx):
+    """fixed witness: an unsuffixed decimal constant is int, long or long long, never unsigned (C11 6.4.4.1p5)"""
+    src = 'int f(int a) { return 4294967295 > -1; }'
+    mod, err = compile_c('x86_64', src)
+    r = run_ir('x86_64', mod, [0]) if mod is not None else err
+    if not (isinstance(r, OkV) and r.v == 1):
+        ctx.violation({'fn': 'c_to_ir expression', 'class': 'decimal-constant-unsigned', 'key': 'expr/decimal-constant-unsigned',
+                       'target': 'x86_64', 'source': src, 'args': [0], 'expected': 1,
+                       'actual': r.v if isinstance(r, OkV) else repr(r),
+                       'how_to_replay': 'm = ppci.api.c_to_ir(io.StringIO(source), "x86_64"); '
+                                        'tools/irsem_py.run_main(m, "f", [0], 100, (8, 65536, 16777216))'})
+
+
 def statements_model(ctx, n, n_model):
     probe_for_decl_under_label(ctx)
+    probe_decimal_constant(ctx)
     """(a) Model/CGenStmt.emit_fn_stmt == real CFG; skeleton run == irsem_py on the real IR; Coq spec == Python spec;
     (b) search: real IR vs the Python reading of Spec/CStmtSpec.v"""
     st = {'generated': 0, 'structure': 0, 'values': 0, 'spec_cross': 0, 'search_compared': 0, 'violations': 0,
           'known_class_hits': 0, 'compile_error': 0, 'kinds': {}}
     cc, recs = [], []
     seen = set()
-    for i in range(n):
-        c = gen_stmt_case(ctx.rng, TARGETS[i % len(TARGETS)])
+    fixed = []
+    for (march, te, np_, rt, body, args) in FIXED_STMT_CASES:
+        dm = target(march)['dm']
+        d = smap(lambda e: desugar(dm, e), body)
+        vecs = [(a, srun_fn(dm, te, np_, rt, a, d)) for a in args]
+        fixed.append((march, te, np_, rt, body, [(a, v) for a, v in vecs if v is not None]))
+    for i in range(-len(fixed), n):
+        c = fixed[i] if i < 0 else gen_stmt_case(ctx.rng, TARGETS[i % len(TARGETS)])
         if not c:
             continue
         march, te, np_, rt, body, vecs = c
